@@ -270,6 +270,37 @@ class C19(common.Prop):
         out['post'] = [[ids[k], [float(v[0]), float(v[1])]] for k, v in res.items()]
         return out
 
+    # ------------------------------------------------------------------ second oracle (model not buildable)
+    def python_oracle(self, case, impl):
+        """mirror of Geom/LayoutCheck.prop_fail, used only when the Coq side cannot be built"""
+        import math
+        if 'skip' in impl:
+            return 0
+        if case['kind'] == 'layout':
+            if impl['exc'] == 3:
+                return 2
+            if impl['exc']:
+                return 1
+            post = dict((k, p) for k, p in impl['post'])
+            if len(impl['post']) != len(impl['nodes']) or any(n not in post for n in impl['nodes']):
+                return 2
+            if any(not math.isfinite(x) for p in post.values() for x in p):
+                return 3
+            if any(post[u] == post[v] for u, v in impl['edges']):
+                return 4
+            m = sum(math.dist(post[u], post[v]) for u, v in impl['edges']) / len(impl['edges'])
+            return 0 if abs(m - impl['db']) <= 1e-9 * abs(impl['db']) else 5
+        if impl['exc']:
+            return 6
+        pre, post = (dict((k, p) for k, p in impl[x]) for x in ('pre', 'post'))
+        if any(not math.isfinite(x) for p in post.values() for x in p):
+            return 7
+        for u, v in impl['edges']:
+            a, b = math.dist(pre[u], pre[v]), math.dist(post[u], post[v])
+            if not abs(a - b) <= 1e-9 * (1 + a):
+                return 8
+        return 0
+
     # ------------------------------------------------------------------ bookkeeping
     def nontrivial(self, case, impl):
         return 'skip' not in impl
@@ -292,6 +323,11 @@ class C19(common.Prop):
         return '(CRot %s %s %s %s %s %s %s)' % (ed, lit.z(impl['anchor']), lit.z(impl['target']),
                                                lit.lst([zl(c) for c in impl['comps']]), lit.nat(impl['exc']),
                                                pl(impl['pre']), pl(impl['post']))
+
+
+def run(prop, ctx):
+    _c18.drop_stale_gen()
+    return common.run_prop(prop, ctx)
 
 
 PROP = C19()
